@@ -4,9 +4,9 @@ go 1.26.0
 
 godebug randseednop=0
 
-replace github.com/formancehq/ledger => /tmp/mut/t-27707
+replace github.com/formancehq/ledger => /tmp/mut/t-12290
 
-replace github.com/formancehq/ledger/pkg/client => /tmp/mut/t-27707/pkg/client
+replace github.com/formancehq/ledger/pkg/client => /tmp/mut/t-12290/pkg/client
 
 replace google.golang.org/genproto v0.0.0-20200423170343-7949de9c1215 => google.golang.org/genproto v0.0.0-20240903143218-8af14fe29dc1
 
